@@ -47,8 +47,8 @@ def run(chk):
         sc.append((S.SUB[k], S.words_bound(S.SUB[k], quick)))
     docs = S.corpus_sources()
     extra = list(docs) + S.regression_inputs(('C06', 'C07', 'C08'))
-    extra += S.mutations(rng, docs, 3 if quick else 40, S.SC)
-    extra += S.random_strings(rng, S.ST, 300 if quick else 20000, 4, 25)
+    extra += S.mutations(rng, docs, 3 if quick else 12, S.SC)
+    extra += S.random_strings(rng, S.ST, 300 if quick else 3000, 4, 25)
     S.standard(chk, sc, INV, CLAUSES,
                'strict ok => tolerant identical; tolerant ok => output = input + inserted closers only',
                extra_sources=extra, runs='B', simulate_words=S.ST + S.SC)
